@@ -63,6 +63,7 @@ class Machine:
         self.hash_orders = {}      # uid -> permutation policy
         self.trace_calls = None
         self.concrete_model = None
+        self.ctx = {}
 
     # ------------------------------------------------------------ symbolic inputs
     def fresh_int(self, name, lo, hi):
@@ -232,7 +233,9 @@ class Machine:
         if bad_cond is not None: self.solver.add(bad_cond)
         r = self._check()
         if r == z3.sat:
-            self.findings.append((kind, detail, self.model_dict(self.solver.model())))
+            md = self.model_dict(self.solver.model())
+            md["_ctx"] = dict(self.ctx)            # driver-level path context (sizes, operation choices)
+            self.findings.append((kind, detail, md))
         self.solver.pop()
         return r == z3.sat
 
@@ -702,6 +705,12 @@ class Machine:
             if getattr(mdl, "wants_path", False): return mdl(self, path, *args)
             return mdl(self, *args)
         meth = key.rsplit("::", 1)[-1]
+        if trait is not None and ty is not None:
+            # a hand-written impl in the crate wins over the generic library models
+            tb, trb = base_name(ty), base_name(trait)
+            c = self.world.impl_index().get((tb, trb, meth))
+            if c and self.world.is_derived(tb, trb) is False:
+                return self.run_fn(self.mod.get(self.world.pick_impl(c, trait)), args, {"Self": tb})
         if trait is not None:
             gk = f"<_ as {base_name(trait)}>::{meth}"
             g = self.generic_models.get(gk)
